@@ -13,6 +13,7 @@ package editor
 
 //@ func (*Buffers).Get
 //@   props C16 C17 C01
+//@   returns_alias the register's own slice
 //@   terminates
 //@   requires bufok(reg)
 //@   pure
@@ -28,6 +29,7 @@ package editor
 
 //@ func (*Buffers).GetKill
 //@   props C16 C17 C01
+//@   returns_alias the kill buffer's own slice (reg.num[0])
 //@   terminates
 //@   requires bufok(reg)
 //@   pure
@@ -35,6 +37,7 @@ package editor
 
 //@ func (*Buffers).writeNum
 //@   props C16 C17 C01
+//@   retains buf
 //@   terminates
 //@   requires bufok(reg)
 //@   assigns mapof(reg.num)
@@ -54,6 +57,7 @@ package editor
 
 //@ func (*Buffers).Active
 //@   props C16 C17 C01
+//@   returns_alias the selected register's or the kill buffer's own slice (Get / GetKill)
 //@   terminates
 //@   requires bufok(reg)
 //@   assigns reg.active, reg.waiting, reg.selected
@@ -63,6 +67,7 @@ package editor
 
 //@ func (*Buffers).writeAlpha
 //@   props C16 C17 C01
+//@   retains buf
 //@   terminates
 //@   requires bufok(reg)
 //@   assigns mapof(reg.alpha)
@@ -81,3 +86,13 @@ package editor
 //@   ensures [clean-result] clean(result)
 //@   ensures [registers-stay-clean] old(regsclean(reg)) ==> regsclean(reg)
 //@   loop 1 invariant bufok(reg) && (old(regsclean(reg)) ==> regsclean(reg))
+
+// EditBuffer runs an external editor on a temporary file (A-OS): nothing is known about what comes back
+// except that it is some text and some error value, in any combination — in particular (empty, nil) when
+// the user saves an empty file.
+//@ func (*Buffers).EditBuffer
+//@   props C01
+//@   trusted external process (os/exec, temporary file): the result is unconstrained except that the text is either the argument or []rune(string(bytes)), i.e. valid runes
+//@   requires reg != nil
+//@   assigns nothing
+//@   ensures [runes-of-a-string] clean(buf) ==> clean(result0)
